@@ -11,8 +11,11 @@ COQDIR = '/verif/coq'
 
 def history_term(case):
     items = []
+    rcmap = {}
     for op, (s, c, g), dmp in case:
-        items.append('(%s, (%s, %s, %s), %s)' % (ops.op_coq(op), ops.z(s), ops.z(c), ops.z(g), ops.dump_coq(dmp)))
+        items.append('(%s, (%s, %s, %s), %s)' % (ops.op_coq(op, rcmap), ops.z(s), ops.z(c), ops.z(g),
+                                                 ops.dump_coq(dmp)))
+        rcmap = ops.rc_map(dmp)
     return ops.lst(items)
 
 
@@ -67,3 +70,20 @@ def check_cases(cases, workdir=None, shard=150, cfg=(0, 0)):
         except OSError:
             pass
     return bad
+
+
+def debug_case(case, upto, cfg=(0, 0), workdir='/tmp'):
+    """Print the model's response and dump after step `upto` of a case."""
+    path = os.path.join(workdir, 'debug_case.v')
+    rcmap = {}
+    terms = []
+    for op, obs, dmp in case[:upto + 1]:
+        terms.append(ops.op_coq(op, rcmap))
+        rcmap = ops.rc_map(dmp)
+    with open(path, 'w') as f:
+        f.write('From PV Require Import Model.Handlers.\n')
+        f.write('Definition cf := mkCfg %d %d.\n' % cfg)
+        f.write('Definition pre := run cf db0 %s.\n' % ops.lst(terms[:-1]))
+        f.write('Eval vm_compute in (let x := step cf pre %s in (snd x, dump (fst x))).\n' % terms[-1])
+    p = subprocess.run(['coqc', '-Q', COQDIR, 'PV', path], capture_output=True, text=True, cwd=workdir)
+    return p.stdout + p.stderr
